@@ -533,6 +533,10 @@ def random_requests(rng, prop, n):
                 lp = lp[1:]
                 kind += '-open'
             reqs.append(('model.polyface_volume', [[wv(q) for q in v], lp], kind))
+            # the volume of a solid rests on the outward orientation, which starts from the
+            # point-on-face helper: tie that too
+            for f in rng.sample(lp, min(2, len(lp))):
+                reqs.append(('model.point_on_face', [[wv(v[i]) for i in f], W(0.01)], kind))
     return reqs
 
 
